@@ -316,14 +316,50 @@ fn exhaustive_size(id: u8, w: u32, h: u32, rep: &mut Report) {
     }
 }
 
+/// Exactly K writes to one page object, then a fill or a clear, for K around the values where an 8- or 16-bit tally of
+/// writes would come back to zero: what the page looks like must not depend on how many times it has been written to.
+fn counted_histories(rep: &mut Report) {
+    let (w, h) = (37u32, 11u32);
+    for k in [255usize, 256, 257, 511, 512, 65_535, 65_536, 65_537, 131_071, 131_072] {
+        for variant in 0..3 {
+            let backing: Vec<u8> = RefPage::new(9, w, h).image();
+            let m = if variant == 2 { Mon::borrowed_or_skip(w, h, &backing, rep).ok().flatten() } else { Mon::fresh_or_skip(9, w, h, rep) };
+            let Some(mut m) = m else { continue };
+            rep.case(Some(mix(k as u64, 0xC06_0000 + variant as u64)));
+            let writes = if variant == 1 { k - 1 } else { k };
+            for i in 0..writes {
+                let x = (i as u32 * 7) % w;
+                let y = (i as u32 / 3) % h;
+                // mostly "on"; the last write always leaves its pixel lit
+                m.apply(&Op::Set(x, y, i % 5 != 4 || i + 1 == writes), rep);
+            }
+            if variant == 1 {
+                m.apply(&Op::Fill(true), rep); // the k-th write is a fill
+            }
+            m.apply(&Op::Fill(false), rep);
+            m.compare(rep, false);
+            m.apply(&Op::Set(1, 1, true), rep);
+            m.apply(&Op::Fill(true), rep);
+            m.compare(rep, false);
+            rep.count("counted_histories");
+        }
+    }
+}
+
 fn random_sequence(rng: &mut Rng, rep: &mut Report, max_ops: usize) {
+    let n_ops = 1 + rng.usize(max_ops);
+    sequence_of_length(rng, rep, n_ops)
+}
+
+/// (the long ones: one page object living through 100 000 operations)
+fn sequence_of_length(rng: &mut Rng, rep: &mut Report, n_ops: usize) {
+    rep.max("longest_sequence", n_ops as f64);
     let (w, h) = if rng.chance(1, 3) {
         let t = rng.pick(&refs::TYPES);
         (t.w, t.h)
     } else {
         (rng.below(24) as u32, rng.below(36) as u32)
     };
-    let n_ops = 1 + rng.usize(max_ops);
     let borrowed = rng.bool();
     let backing: Vec<u8> = if rng.chance(1, 4) {
         // genuine-looking content
@@ -408,6 +444,12 @@ pub fn run(ctx: &Ctx) -> Outcome {
             rep.count(if shard < box_n { "box_sizes_done" } else { "real_sizes_done" });
         } else {
             let mut rng = ctx.rng("seq", (shard - ns) as u64);
+            if shard - ns < 4 {
+                sequence_of_length(&mut rng, rep, 100_000);
+                rep.count("long_sequences");
+            } else if shard - ns == 4 {
+                counted_histories(rep);
+            }
             for _ in 0..n_seq / seq_shards as u64 {
                 random_sequence(&mut rng, rep, 200);
             }
@@ -417,6 +459,8 @@ pub fn run(ctx: &Ctx) -> Outcome {
         floor("every page asked for could be built (otherwise the bounds rules were not observed on those sizes)", report.get("pages_that_could_not_be_built") == 0, report.get("pages_that_could_not_be_built")),
         floor("every size of the box explored", report.get("box_sizes_done") == box_n as u64, report.get("box_sizes_done")),
         floor("all 11 real sizes explored", report.get("real_sizes_done") == 11, report.get("real_sizes_done")),
+        floor("four sequences of 100 000 operations on one page object", report.get("long_sequences") == 4, report.get("long_sequences")),
+        floor("fill / clear after exactly 255..131072 writes to one page", report.get("counted_histories") == 30, report.get("counted_histories")),
         floor("every op kind exercised", ["op/set", "op/clear", "op/fill", "op/get", "op/set_oob", "op/get_oob"].iter().all(|k| report.get(k) > 0), "set/clear/fill/get/set_oob/get_oob"),
         floor("out-of-bounds panics observed", report.get("oob_panics_observed") > report.get("nondegenerate_sizes"), report.get("oob_panics_observed")),
         floor("borrowed pages mutated", report.get("borrowed_pages_mutated") > 0, report.get("borrowed_pages_mutated")),
